@@ -182,6 +182,13 @@ def float_pairs():
 
 
 def run(ctx):
+    C.expect_sessions(ctx["report"], ctx["rundir"], "C05",
+                      [(["x = 6!", "1/x"], "F:1/720", "the reciprocal of a lazy value that was displayed before"),
+                       (["b = C(6,2)", "seen = b == 15", "1/b"], "F:1/15", "the reciprocal of a lazy value that was compared before"),
+                       (["x = 6!", "x", "x*x/4!"], "I:21600", "a displayed lazy value times itself, divided"),
+                       (["x = 6!; x*x/4!"], "I:21600", "a lazy variable times itself, divided"), (["b = C(6,2); b*b"], "I:225", "a lazy variable times itself"),
+                       (["{x*x/2 : x in {5!}}"], "A:[I:7200]", "a lazy element times itself"), (["5! * -1 * -1 == 5!"], "I:1", "two negative unit factors"),
+                       (["(-1*3!)*(-1*4!) == 3!*4!"], "I:1", "negative factors on both operands"), (["C(6,2) in {-1*C(6,4)*-1}"], "I:1", "membership with negative unit factors")])
     C.config_matrix(ctx["report"], ctx["rundir"], "C05", ["5!/3!", "C(10,3) * 7 / 7", "200!/198!", "(5!/7!) * 7!", "3!*3! - 3!", "{{3!}}", "sqrt(4!/6)", "x = 6!; 1/x", "x = 6!; x*x/4!", "b = C(6,2); b*b", "5! * -1 * -1 == 5!"])
     _fp = float_pairs()
     _fo = C.run_impl(impl_case, [a for a, _ in _fp] + [b for _, b in _fp], ctx["rundir"], limit=10.0)
